@@ -101,14 +101,26 @@ func For[V any](
 	return func(c *co[V], k cont[V]) {
 		var loop func(skipPost bool)
 		loop = func(skipPost bool) {
-			if post != nil && !skipPost {
-				post()
-			}
-			if cond == nil || cond() {
+			// iterate instead of recursion while the body completes synchronously (without yield),
+			// otherwise the stack grows with the number of iterations between two yields
+			for again := true; again; skipPost = false {
+				again = false
+				if post != nil && !skipPost {
+					post()
+				}
+				if cond != nil && !cond() {
+					k(kNormal, zero[V]())
+					return
+				}
+				sync := true // the body has not returned yet
 				body(c, func(t contType, v V) {
 					switch t {
 					case kNormal, kContinue:
-						loop(false)
+						if sync {
+							again = true
+						} else {
+							loop(false)
+						}
 					case kBreak:
 						k(kNormal, zero[V]())
 					case kReturn:
@@ -117,8 +129,7 @@ func For[V any](
 						panic("unreachable")
 					}
 				})
-			} else {
-				k(kNormal, zero[V]())
+				sync = false
 			}
 		}
 		loop(true)
